@@ -216,6 +216,27 @@ def compare(ref, oth, s, cfg, viol, tag, pot1, pot_s):
         obs["vLTE"] = d
         if d > 10 * hyd_tol:
             fail("lte", "vLTE", d, 10 * hyd_tol)
+    # --- fixed-velocity probe of the real wallPressure (converged iteration, same starting
+    # parameters in units of 1/T_n): compared also when the outcome is RUNAWAY
+    pr, po = ref.get("probe"), oth.get("probe")
+    if pr and po and "error" not in pr and "error" not in po and pr["ok"] and po["ok"]:
+        scaleP = max(abs(pr["P_over_Tn4"]), abs(po["P_over_Tn4"]), 1e-300)
+        dP = abs(pr["P_over_Tn4"] - po["P_over_Tn4"]) / scaleP
+        dwp = rel(pr["widths"] * ref["Tn"], po["widths"] * oth["Tn"])
+        dop = float(np.max(np.abs(pr["offsets"] - po["offsets"])))
+        obs["probe_P"], obs["probe_widths"], obs["probe_offsets"] = dP, dwp, dop
+        hit = False
+        if dP > 0.1:
+            fail("solve", "probe pressure/Tn^4", dP, 0.1, f"at v_w={pr['vw']:.4f}")
+            hit = True
+        if dwp > TOL_WIDTH:
+            fail("solve", "probe widths*Tn", dwp, TOL_WIDTH)
+            hit = True
+        if dop > TOL_OFFSET:
+            fail("solve", "probe offsets", dop, TOL_OFFSET)
+            hit = True
+        if hit:
+            obs["_solve_diverged_at"] = [pr["vw"]]
     # --- wall solve
     if "vw" in ref and "vw" in oth:
         if (ref["vw"] is None) != (oth["vw"] is None) or ref["solutionType"] != oth["solutionType"]:
